@@ -1,11 +1,122 @@
-(* C06 -- property theorems only. `table` is regenerated from /repo on every run. *)
+(* C06 -- copies are faithful and independent; derived molecules never alter their sources.
+   Property theorems only.  `table` (Gen/CopyRoutes.v) is regenerated from /repo on every run:
+   the alias row of every copy route, observed with `is` / shares_memory on the real objects. *)
 From Coq Require Import List Bool ZArith.
 Import ListNotations.
-From Molli Require Import Model.Alias Gen.CopyRoutes.
+From Molli Require Import Model.Alias Proofs.Alias Gen.CopyRoutes.
 
-(* recorded finding, excluded by name: Molecule.join resets the partial charges *)
+(* Recorded finding, excluded BY NAME (class, route, field): Molecule.join resets the partial
+   charges (known_findings: C06:Molecule:join-Molecule:charges-differ).  Everything else the
+   specification asks of that route is still enforced.  A repair keeps this file green. *)
 Definition known : known_t := [(KMolecule, RJoin KMolecule, FCharges)].
 
+(* (1) kernel computation over the regenerated table: every route the property names is present and
+   its alias row meets the specification written from the property text (Model/Alias.v need_of /
+   row_ok / lone_ok): nothing shared, every field both classes have copied, parents re-pointed. *)
 Theorem C06_table_ok : table_ok known table = true.
 Proof. vm_compute. reflexivity. Qed.
 Print Assumptions C06_table_ok.
+
+Theorem C06_required_routes_present : forall k r, In (k, r) required -> exists x, lookup_row table k r = Some x.
+Proof. exact (table_routes_present known table C06_table_ok). Qed.
+Print Assumptions C06_required_routes_present.
+
+(* (2) for EVERY heap and EVERY source object: a copy made along any tabulated route of a
+   molecule-like class is independent (the copy and the source are separated by disjoint closed
+   regions; their reach sets are disjoint), leaves the source as it was, and is faithful (equal
+   observation on every field the specification requires; atoms and bonds of the result point to
+   the result as parent). *)
+Theorem C06_copy_faithful_independent : forall k r x,
+  lookup_row table k r = Some x -> lone k = false ->
+  forall g h o h' o', heap_wf h -> copy_row x g (kls_code (dst_of k r)) h o = Some (h', o') ->
+  separated h' o' o
+  /\ (forall l, In l (reach h' o') -> ~ In l (reach h' o))
+  /\ exists ob ob', obs h o = Some ob /\ obs h' o = Some ob /\ obs h' o' = Some ob'
+                    /\ o_cls ob' = kls_code (dst_of k r) /\ faithful_on (need_known known k r) ob ob'.
+Proof. exact (table_routes_sound known table C06_table_ok). Qed.
+Print Assumptions C06_copy_faithful_independent.
+
+(* the same for any row whatsoever that meets the specification (not only today's table) *)
+Theorem C06_row_sound : forall nd r g d h o h' o',
+  heap_wf h -> row_ok nd r = true -> copy_row r g d h o = Some (h', o') ->
+  separated h' o' o
+  /\ (forall l, In l (reach h' o') -> ~ In l (reach h' o))
+  /\ exists ob ob', obs h o = Some ob /\ obs h' o = Some ob /\ obs h' o' = Some ob'
+                    /\ o_cls ob' = d /\ faithful_on nd ob ob'.
+Proof. exact copy_row_sound. Qed.
+Print Assumptions C06_row_sound.
+
+(* (3) the frame rule, for EVERY mutation: any sequence of writes / allocations confined to what the
+   mutated object reaches leaves the observation of an object with a disjoint region unchanged *)
+Theorem C06_mutation_frame : forall h (SA SB : loc -> Prop) a b ps,
+  closed h SA -> closed h SB -> (forall l, SA l -> ~ SB l) -> SA a -> SB b ->
+  prims_okb (reach h a) h ps = true ->
+  obs (apply_prims h ps) b = obs h b.
+Proof. exact frame_rule. Qed.
+Print Assumptions C06_mutation_frame.
+
+(* the design's formulation: disjoint reach sets imply the frame rule *)
+Theorem C06_disjoint_reach_frame : forall h a b ps,
+  ranked h -> a < length h -> b < length h ->
+  (forall l, In l (reach h a) -> ~ In l (reach h b)) ->
+  prims_okb (reach h a) h ps = true ->
+  obs (apply_prims h ps) b = obs h b.
+Proof. exact disjoint_reach_frame. Qed.
+Print Assumptions C06_disjoint_reach_frame.
+
+(* (4) histories: after a copy along any tabulated route, in ANY interleaved history of mutations
+   through the copy and through the source, no step changes what the other side observes *)
+Theorem C06_copy_then_any_history : forall k r x,
+  lookup_row table k r = Some x -> lone k = false ->
+  forall g h o h' o', heap_wf h -> copy_row x g (kls_code (dst_of k r)) h o = Some (h', o') ->
+  forall hist, hist_okb h' o' o hist = true ->
+  forall pre s ps post, hist = pre ++ (s, ps) :: post ->
+    obs (apply_prims (run_hist h' pre) ps) (pick (other_side s) o' o)
+    = obs (run_hist h' pre) (pick (other_side s) o' o).
+Proof. exact (copy_then_history known table C06_table_ok). Qed.
+Print Assumptions C06_copy_then_any_history.
+
+(* the elementary edits of the menu (atom / bond field, coords[i], atomic_charges[i], weights[i],
+   attrib[k], atoms[j].attrib[k], bonds[j].attrib[k], name/charge/mult) only write what the object
+   they go through reaches -- so the frame rule applies to each of them *)
+Theorem C06_menu_edits_confined : forall h o x ps,
+  compile_op h o x = Some ps -> prims_okb (reach h o) h ps = true.
+Proof. exact compile_op_ok. Qed.
+Print Assumptions C06_menu_edits_confined.
+
+(* observation only depends on the cells of a closed region containing the object *)
+Theorem C06_observation_local : forall h1 h2 S o, closed h1 S -> S o -> agree S h1 h2 -> obs h2 o = obs h1 o.
+Proof. exact obs_local. Qed.
+Print Assumptions C06_observation_local.
+
+(* ---- non-vacuity: a two-atom, one-bond molecule with attributes, charges and coordinates *)
+Definition ex_heap : heap :=
+  [ CMol 5 [1; 0; 1]%Z 1 (Some 2) (Some 3) (Some 4) None 5;
+    CList [6; 8]; CList [10]; CArr [1; 2; 3; 4; 5; 6]%Z; CArr [7; 8]%Z; CDict [(1, 2)]%Z;
+    CAtom [6; 0]%Z 7 (PTo 0); CDict [(3, 4)]%Z; CAtom [8; 1]%Z 9 (PTo 0); CDict [];
+    CBond 6 8 [1; 2]%Z 11 (PTo 0); CDict [(5, 6)]%Z ].
+Definition ex_given := mk_given [] [] [] [].
+
+Example C06_hypotheses_satisfiable :
+  rankedb ex_heap = true /\ heap_wfb ex_heap = true /\
+  match lookup_row table KMolecule (RCtor KMolecule) with
+  | Some x =>
+      match copy_row x ex_given 5 ex_heap 0 with
+      | Some (h', o') =>
+          o' = 12 /\ rankedb h' = true /\ disjointb (reach h' o') (reach h' 0) = true
+          /\ obs_eqb (option_map (fun ob => mk_obs (o_cls ob) (o_scal ob) (o_atoms ob) (o_bonds ob) (o_coords ob)
+                                                   (o_charges ob) (o_weights ob) (o_attrib ob)) (obs h' 0))
+                     (obs ex_heap 0) = true
+          /\ length (reach h' o') = 16
+          /\ match compile_op h' o' (OAtomAttrib 1 [(9, 9)]%Z) with
+             | Some ps => prims_okb (reach h' o') h' ps = true
+                          /\ hist_okb h' o' 0 [(SideA, ps); (SideB, [PWrite 3 (CArr [0; 0; 0; 4; 5; 6]%Z)])] = true
+                          /\ obs_eqb (obs (apply_prims h' ps) 0) (obs h' 0) = true
+                          /\ obs_eqb (obs (apply_prims h' ps) o') (obs h' o') = false
+             | None => False
+             end
+      | None => False
+      end
+  | None => False
+  end.
+Proof. vm_compute. repeat split; reflexivity. Qed.
